@@ -149,10 +149,9 @@ fn bind_peers(ip: Ipv4Addr) -> Result<(Peers, bool), String> {
         Ok(s) => (s, true),
         Err(_) => (mk(0).map_err(|e| e.to_string())?, false),
     };
-    let closed = {
-        let s = mk(0).map_err(|e| e.to_string())?;
-        s.local_addr().unwrap()
-    };
+    // a port nobody listens on, below the ephemeral range (a bound-then-dropped ephemeral port can
+    // be handed to the flow's own outbound socket, which then talks to itself)
+    let closed = SocketAddr::new(IpAddr::V4(ip), 7);
     Ok((Peers { socks: vec![p1, p2, dns], closed_port: closed, seen_from: BTreeMap::new() }, dns_ok))
 }
 
@@ -184,6 +183,8 @@ async fn run_history(hist: &[Op]) -> Result<HistOutcome, Violation> {
     // payload bytes handed to an outbound socket successfully / returned to the client
     let mut want_up = 0usize;
     let mut want_down = 0usize;
+    let mut burst_bytes_unknown = 0u32;
+    crate::engine::sys::record_udp_sends();
     let dst_of = |i: u8, peers: &Peers| peers.socks[flow_peer_index(i)].local_addr().unwrap();
     for (step, op) in hist.iter().enumerate() {
         let mut expect_peer: Vec<(usize, Vec<u8>, u8)> = vec![]; // (peer index, payload, flow)
@@ -277,8 +278,8 @@ async fn run_history(hist: &[Op]) -> Result<HistOutcome, Violation> {
             }
             Op::BurstClosedPort => {
                 seq += 1;
-                // the first datagram leaves the socket; the second send meets ECONNREFUSED and relays nothing
-                want_up += format!("e{step}a").len();
+                // whether each of the two sends succeeds depends on whether the socket's pending error
+                // was consumed by the reader first: decided by the send(2) results observed below
                 push(flow_src(0), peers.closed_port, format!("e{step}a").into_bytes());
                 push(flow_src(0), peers.closed_port, format!("e{step}b").into_bytes());
                 notify.notify_one();
@@ -329,6 +330,15 @@ async fn run_history(hist: &[Op]) -> Result<HistOutcome, Violation> {
             ));
         }
         let counted = *metrics.lock().unwrap();
+        // bytes handed to a socket successfully, as the kernel saw them
+        let sent_ok: usize = crate::engine::sys::udp_sends().iter().filter(|(_, ok)| *ok).map(|(n, _)| *n).sum();
+        if !matches!(op, Op::BurstClosedPort) && burst_bytes_unknown == 0 && sent_ok != want_up {
+            return Err(Violation::new("C07:machinery", format!("send(2) log ({sent_ok} bytes) and the reference model ({want_up} bytes) disagree; history {hist:?}"), json!({"kind":"history","history": hist})));
+        }
+        if matches!(op, Op::BurstClosedPort) {
+            burst_bytes_unknown += 1;
+        }
+        let want_up = sent_ok;
         if counted[0] != want_up || counted[1] != want_down {
             let dir = if counted[0] != want_up { "client-to-peer" } else { "peer-to-client" };
             return Err(fail(
@@ -390,7 +400,7 @@ impl HistoryModel for M {
 pub fn run(tier: Tier) -> i32 {
     crate::engine::watch::start("C07", tier.name(), Duration::from_secs(60), crate::engine::watch::OnExpiry::Machinery);
     let mut rep = Report::new("C07", tier, "model_checking");
-    let depth = tier.pick(6usize, 9usize);
+    let depth = tier.pick(6usize, 11usize);
     let (st, viol, samples) = bfs(&M, depth, Duration::from_secs(tier.pick(45, 1500)), rt::workers(), &|| {});
     // report the shortest history per signature
     let mut viol = viol;
